@@ -93,7 +93,9 @@ def parse_session(sess):
 
 def session_oracles(sess, obs, ref, which):
     """which: set of 'C05', 'C06', 'C11'. Returns a description of the violation or None."""
-    ref_frames_s, lines_s = ref.split("|")
+    parts = ref.split("|")
+    ref_frames_s, lines_s = parts[0], parts[1]
+    tlog = parts[2].split(",") if len(parts) > 2 and parts[2] else []
     frames, end = parse_ref(ref_frames_s)
     lines = [bytes.fromhex(x) for x in lines_s.split(",") if x]
     per_cmd = obs.split(";")
@@ -136,6 +138,16 @@ def session_oracles(sess, obs, ref, which):
         # exact matching: the stream must end exactly at the first own-tag completion
         # (if it ended earlier, `done` would have been set by a different tag -> caught as 'item after completion' or silent end)
     if "C06" in which:
+        # the command line is completely flushed before the stream waits: no read is attempted while bytes the
+        # transport accepted have not been followed by a successful flush of the transport
+        dirty = False
+        for e in tlog:
+            if e[0] == "w" and e[1:].isdigit() and int(e[1:]) > 0:
+                dirty = True
+            elif e == "fO":
+                dirty = False
+            elif e[0] == "r" and dirty:
+                return "C06", "the connection was read (%s) while written command bytes had not been flushed by the transport (transport log ...%s)" % (e, ",".join(tlog[max(0, tlog.index(e) - 8):tlog.index(e) + 1]))
         pos = 0
         for k, line in enumerate(lines):
             rest = wire[pos:]
